@@ -603,4 +603,128 @@ theorem parseLines_single_define_error (P : Params) (line : Str) (nd : Node) (t 
   simp [parseLines, hdet, parseNodes, runNodes, step, hk, stepPlain, hn, hpre, updateFirst, hv,
     bind, Except.bind, pure, Except.pure]
 
+/-! ### string elements: `["a","b"]` -/
+
+/-- the text between the quotes of a JSON string element: no quote, no backslash, no control character -/
+def StrOk (x : Str) : Prop := ∀ c ∈ x, c ≠ '"' ∧ c ≠ '\\' ∧ 32 ≤ c.toNat
+
+/-- `Rendered` with quoted string leaves as well -/
+inductive RenderedQ : Str → List Nat → List Tok → Prop where
+  | tok (t : Str) (h : TokOk t) : RenderedQ t [] [.bare t]
+  | str (x : Str) (h : StrOk x) : RenderedQ ('"' :: (x ++ ['"'])) [] [.str x]
+  | arr (items : List (Str × List Tok)) (sh : List Nat) (hne : items ≠ [])
+      (h : ∀ it ∈ items, RenderedQ it.1 sh it.2) :
+      RenderedQ ('[' :: (joinWith [','] (items.map Prod.fst) ++ [']'])) (items.length :: sh)
+        (items.flatMap Prod.snd)
+
+theorem rendered_toQ {s : Str} {sh : List Nat} {toks : List Tok} (h : Rendered s sh toks) : RenderedQ s sh toks := by
+  induction h with
+  | tok t ht => exact .tok t ht
+  | arr items sh hne _ ih => exact .arr items sh hne ih
+
+theorem pVal_str (f : Nat) (x rest : Str) (hx : StrOk x) :
+    pVal (f + 1) (('"' :: (x ++ ['"'])) ++ rest) = .ok ([], [.str x], rest) := by
+  have hp : ∀ c ∈ x, (fun c => c != '"') c = true := by intro c hc; simp [(hx c hc).1]
+  have hb : ('"' :: rest) = [] ∨ ∃ a r, ('"' :: rest) = a :: r ∧ (fun c => c != '"') a = false :=
+    .inr ⟨'"', rest, rfl, by simp⟩
+  have e : ('"' :: (x ++ ['"'])) ++ rest = '"' :: (x ++ '"' :: rest) := by simp
+  have hbs : x.contains '\\' = false := by
+    rw [Bool.eq_false_iff]; intro h
+    have := List.contains_iff_mem.mp h
+    exact (hx _ this).2.1 rfl
+  have hctl : x.any (fun c => decide (c.toNat < 32)) = false := by
+    rw [Bool.eq_false_iff]; intro h
+    obtain ⟨c, hc, hlt⟩ := List.any_eq_true.mp h
+    have := (hx c hc).2.2
+    simp only [decide_eq_true_eq] at hlt
+    omega
+  rw [e]
+  unfold pVal
+  rw [dropWs_cons '"' _ (by decide)]
+  simp only [takeWhile_append_gen _ x _ hp hb, dropWhile_append_gen _ x _ hp hb, hbs, hctl, Bool.false_eq_true, if_false]
+
+theorem pVal_renderedQ {s : Str} {sh : List Nat} {toks : List Tok} (h : RenderedQ s sh toks) :
+    ItemOk sh (s, toks) := by
+  induction h with
+  | tok t ht =>
+    obtain ⟨c, r, hcr, _, _, hb, hw⟩ := tokOk_head t ht
+    refine ⟨⟨c, r, hcr, hw, hb⟩, ?_⟩
+    intro f rest hf hrest
+    obtain ⟨f', rfl⟩ : ∃ f', f = f' + 1 := ⟨f - 1, by omega⟩
+    exact pVal_tok f' t rest ht hrest
+  | str x hx =>
+    refine ⟨⟨'"', _, rfl, by decide, by decide⟩, ?_⟩
+    intro f rest hf _
+    obtain ⟨f', rfl⟩ : ∃ f', f = f' + 1 := ⟨f - 1, by omega⟩
+    exact pVal_str f' x rest hx
+  | arr items sh0 hne _ ih =>
+    refine ⟨⟨'[', _, rfl, by decide, by decide⟩, ?_⟩
+    intro f rest hf hrest
+    obtain ⟨f', rfl⟩ : ∃ f', f = f' + 1 := ⟨f - 1, by omega⟩
+    obtain ⟨it0, ts, rfl⟩ : ∃ it0 ts, items = it0 :: ts := by
+      cases items with | nil => exact absurd rfl hne | cons a b => exact ⟨a, b, rfl⟩
+    obtain ⟨⟨c, r, hc0, hcw, hcb⟩, _⟩ := ih it0 (by simp)
+    have hc : it0.1 = c :: r := hc0
+    have hbody : ∃ r', joinWith [','] ((it0 :: ts).map Prod.fst) ++ ']' :: rest = c :: r' := by
+      cases ts with
+      | nil => exact ⟨r ++ ']' :: rest, by simp [joinWith, hc]⟩
+      | cons b t2 => exact ⟨r ++ ',' :: (joinWith [','] ((b :: t2).map Prod.fst) ++ ']' :: rest), by simp [joinWith, hc]⟩
+    obtain ⟨r', hr'⟩ := hbody
+    have hlen := (joinWith_length_le (it0 :: ts)).2 (by simp)
+    have hfuel : totalLen (it0 :: ts) + (it0 :: ts).length + 1 ≤ f' := by
+      simp only [List.length_cons, List.length_append, List.length_nil] at hf hlen ⊢
+      omega
+    have hpe := pElems_items sh0 (it0 :: ts) f' 0 [] none rest (by simp) (fun x hx => ih x hx) hfuel (.inl rfl)
+    show pVal (f' + 1) ('[' :: (joinWith [','] ((it0 :: ts).map Prod.fst) ++ [']']) ++ rest) = _
+    simp only [List.cons_append, List.append_assoc, List.nil_append]
+    unfold pVal
+    rw [dropWs_cons '[' _ (by decide)]
+    simp only
+    rw [hr', dropWs_cons c r' hcw]
+    split
+    · rename_i heq; exact absurd (List.cons.inj heq).1 hcb
+    · rw [← hr', hpe]
+      simp
+
+theorem parseJson_renderedQ {s : Str} {sh : List Nat} {toks : List Tok} (h : RenderedQ s sh toks) :
+    parseJson s = .ok (sh, toks) := by
+  obtain ⟨_, hp⟩ := pVal_renderedQ h
+  have := hp (s.length + 1) [] (Nat.le_refl _) (.inl rfl)
+  simp only [List.append_nil] at this
+  simp [parseJson, this, bind, Except.bind, isBlank]
+
+theorem renderedQ_head {s : Str} {sh : List Nat} {toks : List Tok} (h : RenderedQ s sh toks) (hsh : sh ≠ []) :
+    ∃ r, s = '[' :: r := by
+  cases h with
+  | tok t ht => exact absurd rfl hsh
+  | str x hx => exact absurd rfl hsh
+  | arr items sh hne _ => exact ⟨_, rfl⟩
+
+/-- the text-level chain for any array text that `json.loads` reads as `(sh, toks)` -/
+theorem inline_array_text_core (tbl : List UnitRow) (k : Nat) (nm : Str) (a : Nat) (ty : TyD) (dims : Option (List DimD))
+    (b c : Nat) (s r : Str) (sh : List Nat) (toks : List Tok) (atoms : List Atom) (ds : List Dim)
+    (unit cm : Option (Nat × Str))
+    (hn : NameOk nm) (hd : DimsOk dims) (hu : ∀ n x, unit = some (n, x) → UnitOk x)
+    (htail : NoEsc (renderTail unit cm))
+    (hunit : ∀ n x, unit = some (n, x) → (ty.ty = .int ∨ ty.ty = .float) ∧ tbl.any (fun r => r.name = x) = true)
+    (hp : parseJson s = .ok (sh, toks)) (hsr : s = '[' :: r)
+    (hplain : ∀ ch ∈ s, ch ≠ '#' ∧ isWs ch = false ∧ ch ≠ '\\' ∧ ch ≠ '$')
+    (hds : dimsValue dims = some ds) (hel : toks.mapM (tokAtom ty.ty) = .ok atoms) (hcd : checkDims ds sh = true) :
+    parseLines (mkParams tbl) [List.replicate k ' ' ++ (definePrefix nm a ty dims b c ++ (s ++ renderTail unit cm))] =
+      .ok [{ name := nm, ty := ty.ty, info := ty.info, dims := some ds, units := unit.map Prod.snd,
+             value := some (.array sh atoms), declared := false }] := by
+  have hlit : Lit.Ok (.bare s) :=
+    ⟨⟨'[', r, hsr, by decide, by decide, by decide, by decide⟩, fun ch hch => ⟨(hplain ch hch).1, (hplain ch hch).2.1⟩⟩
+  have hdet := determine_define_bare k nm a ty dims b c s unit cm hn hd hu htail hlit
+    (fun ch hch => ⟨(hplain ch hch).2.2.1, (hplain ch hch).2.2.2⟩)
+  have hnone : (s == "none".toList) = false := ne_none_of_head _ (by rw [hsr]; simp)
+  have hcast : castText ty.ty (some ds) s = .ok (.array sh atoms) := by
+    simp only [castText, hnone, Bool.false_eq_true, if_false, hp, bind, Except.bind, hel, hcd, if_true]
+  have hinit : initValue (mkParams tbl) ty.ty (some ds) (some (.text s)) = .ok (some (.array sh atoms)) := by
+    have he : s.isEmpty = false := by rw [hsr]; rfl
+    simp only [initValue, he, Bool.false_and, Bool.false_eq_true, if_false, mkParams, hcast, bind, Except.bind]
+  have h := parseLines_single_define (mkParams tbl) _ _ ty.ty nm (.array sh atoms) hdet rfl rfl
+    (preCheck_blockNode tbl k nm ty dims s unit hunit) (by simpa only [blockNode, hds] using hinit)
+  simpa only [blockNode, hds] using h
+
 end SciVerif.C13
